@@ -56,6 +56,8 @@ namespace igris
             using Type = typename Container::value_type;
             auto size = archive.template deserialize<uint16_t>();
 
+            // the decoded value replaces what the destination held
+            listtag.container.clear();
             for (int i = 0; i < size; ++i)
             {
                 Type elem = archive.template deserialize<Type>();
